@@ -136,6 +136,9 @@ pub fn run(args: &Args) -> serde_json::Value {
                     if n1 > *c1 {
                         fail("C12", format!("n = {} exceeds cutoff {}", n1, c1), c.clone(), &mut oracle_failures);
                     }
+                    if call != Call::Cluster && sl1.len() < c0 {
+                        fail("C12", format!("diagonal update ran at reported cutoff {} but the operator string only has {} slots: the free slots are not real", c0, sl1.len()), c.clone(), &mut oracle_failures);
+                    }
                     if call != Call::Cluster && !(c1 > &n1 && *c1 >= n1 + n1 / 2) {
                         fail("C12", format!("no headroom after step: cutoff {} n {}", c1, n1), c.clone(), &mut oracle_failures);
                     }
@@ -204,6 +207,9 @@ pub fn run(args: &Args) -> serde_json::Value {
                         fail("C07", format!("slot {}: illegal stored operator {:?} (weight {})", p, o, w), c.clone(), &mut oracle_failures);
                     }
                 }
+            }
+            if sl1.len() < c0 {
+                fail("C12", format!("diagonal update ran at reported cutoff {} but the operator string only has {} slots", c0, sl1.len()), c.clone(), &mut oracle_failures);
             }
             if c1 < c0 || n1 > c1 || !(c1 > n1 && c1 >= n1 + n1 / 2) {
                 fail("C12", format!("cutoff {} -> {} with n = {}", c0, c1, n1), c.clone(), &mut oracle_failures);
